@@ -139,6 +139,62 @@ Theorem C06_gen_ttinfo_before_is_used : forall r d, build r = Ok d -> r_types r 
 Proof. exact build_before. Qed.
 Print Assumptions C06_gen_ttinfo_before_is_used.
 
+From V Require Import tzfile.TzGenLoopThm tzfile.TzDecodeThm.
+
+(* ---- round 4: the derivation loops of _read_tzfile, regenerated from the source ---- *)
+Theorem C06_gen_scan_std_dst : forall types idx,
+  gen_scan types idx (len idx) =
+  Ok (let sd := scan_sd types (rev idx) None None in
+      (match fst sd with None => snd sd | Some k => Some k end, snd sd)).
+Proof. exact gen_scan_lemma. Qed.
+Print Assumptions C06_gen_scan_std_dst.
+
+Theorem C06_gen_wall_transition_loop : forall types utc idx kb ks heap0, length utc = length idx ->
+  exists a b c,
+    gen_wall_loop types utc idx (len idx) (Some kb) (Some ks) heap0 =
+    Ok (a, b, c, wall_pass types (tt_off (nth_tt types ks)) utc idx (tt_off (nth_tt types kb)),
+        dst_pass types idx None 0 0 heap0).
+Proof. exact gen_wall_loop_lemma. Qed.
+Print Assumptions C06_gen_wall_transition_loop.
+
+(* the decoder of the hand model uses exactly the results of the regenerated loops *)
+Theorem C06_gen_build_uses_regenerated_loops : forall r d, build r = Ok d -> r_types r <> [] -> r_times r <> [] ->
+  length (r_idx r) = length (r_times r) ->
+  let types0 := mk_types (r_abbr r) (r_isstd r) (r_isgmt r) O (r_types r) in
+  exists ks kdo a b c ds,
+    gen_scan types0 (r_idx r) (len (r_idx r)) = Ok (Some ks, kdo) /\
+    gen_wall_loop types0 (r_times r) (r_idx r) (len (r_idx r)) (Some (gen_ttinfo_before_index types0)) (Some ks)
+                  (map (fun _ => 0) types0) = Ok (a, b, c, d_wall d, ds) /\
+    d_utc d = r_times r /\ d_idx d = r_idx r /\ d_tt d = set_dstoffs types0 ds /\
+    d_std d = Some (nth_tt (d_tt d) ks) /\ d_dst d = opt_tt (d_tt d) kdo /\
+    d_before d = Some (nth_tt (d_tt d) (gen_ttinfo_before_index types0)).
+Proof. exact build_uses_gen_lemma. Qed.
+Print Assumptions C06_gen_build_uses_regenerated_loops.
+
+(* ---- round 4: the regenerated __eq__ layer ---- *)
+Theorem C06_gen_ttinfo_eq : forall a b, gen_ttinfo_eq a b = tt_eqb a b.
+Proof. exact gen_ttinfo_eq_lemma. Qed.
+Print Assumptions C06_gen_ttinfo_eq.
+
+Theorem C06_gen_tzfile_eq : forall d1 d2, gen_tzfile_eq d1 d2 = zone_eqb d1 d2.
+Proof. exact gen_tzfile_eq_lemma. Qed.
+Print Assumptions C06_gen_tzfile_eq.
+
+Theorem C06_gen_tzfile_ne : forall d1 d2, gen_tzfile_ne d1 d2 = negb (zone_eqb d1 d2).
+Proof. exact gen_tzfile_ne_lemma. Qed.
+Print Assumptions C06_gen_tzfile_ne.
+
+(* C06_eq_zones_behave_same stated with the REGENERATED tzfile.__eq__ *)
+Theorem C06_gen_eq_zones_behave_same : forall r1 r2 d1 d2, build r1 = Ok d1 -> build r2 = Ok d2 ->
+  r_types r1 <> [] -> r_types r2 <> [] ->
+  length (r_idx r1) = length (r_times r1) -> length (r_idx r2) = length (r_times r2) ->
+  gen_tzfile_eq d1 d2 = true ->
+  forall x f, fromutc d1 x = fromutc d2 x /\ utcoffset d1 x f = utcoffset d2 x f /\ dst d1 x f = dst d2 x f /\
+    tzname d1 x f = tzname d2 x f /\ datetime_exists d1 x f = datetime_exists d2 x f /\
+    datetime_ambiguous d1 x = datetime_ambiguous d2 x /\ resolve_imaginary d1 x f = resolve_imaginary d2 x f.
+Proof. exact gen_eq_behave_same_lemma. Qed.
+Print Assumptions C06_gen_eq_zones_behave_same.
+
 (* hand-modelled fragments (struct decoding and the derivation loops of _read_tzfile, one-line methods, glue)
    are unchanged since the hand model was validated against them *)
 From V Require Import tzfile.TzPinC06.
@@ -146,8 +202,6 @@ Theorem C06_pinned_fragments_unchanged :
   pinned_tz_tzfile__read_tzfile = true /\
   pinned_tz_tzfile___init__ = true /\
   pinned_tz_tzfile__set_tzdata = true /\
-  pinned_tz_tzfile___eq__ = true /\
-  pinned_tz__ttinfo___eq__ = true /\
   pinned_tz_tzfile___reduce_ex__ = true /\
   pinned_zoneinfo_ZoneInfoFile___init__ = true /\
   pinned_zoneinfo_ZoneInfoFile_get = true /\
